@@ -5,6 +5,7 @@ package c01
 
 import (
 	"fmt"
+	"runtime/debug"
 	"sort"
 	"strings"
 	"testing"
@@ -233,6 +234,7 @@ type caseResult struct {
 	truth   *sim.Truth
 	viol    []sim.Violation
 	infra   string
+	hung    string
 	backend sim.Backend
 	batch1  bool
 	nStores int
@@ -275,7 +277,7 @@ func RunProgram(backend sim.Backend, nStores int, batch1 bool, conc1 bool, keys,
 		defer close(done)
 		defer func() {
 			if r := recover(); r != nil && failMsg == "" {
-				failMsg = fmt.Sprintf("panic during step %q: %v", w.Log[len(w.Log)-1], r)
+				failMsg = fmt.Sprintf("panic during step %q: %v\n%s", w.Log[len(w.Log)-1], r, debug.Stack())
 			}
 		}()
 		for _, s := range steps {
@@ -288,8 +290,16 @@ func RunProgram(backend sim.Backend, nStores int, batch1 bool, conc1 bool, keys,
 	}()
 	select {
 	case <-done:
-	case <-time.After(90 * time.Second):
-		res.infra = "case did not finish within 90 s"
+	case <-time.After(60 * time.Second):
+		es := cl.Trace.Since(0)
+		if len(es) > 40 {
+			es = es[len(es)-40:]
+		}
+		var tail []string
+		for _, e := range es {
+			tail = append(tail, sim.DescribeEntry(e))
+		}
+		res.hung = fmt.Sprintf("case did not finish within 60 s; log:\n    %s\n  last RPCs:\n    %s", strings.Join(w.Log, "\n    "), strings.Join(tail, "\n    "))
 		return
 	}
 	if failMsg != "" {
@@ -354,6 +364,9 @@ func histories(t *testing.T, backend sim.Backend) {
 		keys, splits, steps := GenProgram(t, backend, 2)
 		res := RunProgram(backend, nStores, batch1, conc1, keys, splits, steps, nil)
 		prog := progString(steps)
+		if res.hung != "" {
+			t.Fatalf("VERIF-INFRA: %s\n  program: %s", res.hung, prog)
+		}
 		if res.infra != "" {
 			t.Fatalf("VERIF-INFRA: %s | %s", res.infra, prog)
 		}
